@@ -130,21 +130,34 @@ def reconstruct_case(path, lineno):
             if l.startswith('{"ev":"init"'):
                 init = json.loads(l)
                 calls = []
-            elif l.startswith('{"ev":"call"'):
+            elif l.startswith('{"ev":"call"') or l.startswith('{"ev":"env"'):
                 calls.append(json.loads(l))
     names = [n for n in init["index"] if n != "Exception"]
     raw = {k: v for k, v in init["raw"].items() if k != "Exception"}
     return dict(label=init["label"], names=names, schema=raw, on=init["hs"]["on"],
                 binds=init["hs"]["binds"] if init["hs"]["on"] else [],
-                calls=[dict(type=c["type"], called=c["called"], check=c["check"],
+                calls=[dict(ev=c["ev"], type=c["type"], called=c["called"], check=c["check"],
                             veto=c["veto"], nest=c["nest"], panic=c.get("panic", []),
-                            stall=c.get("stall", [])) for c in calls])
+                            stall=c.get("stall", []), backoff=c.get("backoff", False)) for c in calls])
 
 
 # share of calls whose final handlers issue further mutations (queued behind the
 # running transition; exercises duplicate detection, the Remove shortcut and the
 # queue limit of 4)
 NESTP = {"C01": 0.2, "C03": 0.3, "C14": 0.3, "C05": 0.1, "C07": 0.2}
+
+
+# share of histories with a stretch during which the machine is backing off (C03: "a
+# mutation on a ... backing-off machine ... is Canceled with no effect")
+BACKOFFP = {"C03": 0.25, "C01": 0.1}
+
+
+def prop_of_plan(plan):
+    for tier in PLANS.values():
+        for prop, pl in tier.items():
+            if pl is plan:
+                return prop
+    return None
 
 
 def generate(binary, plan, outdir, sd, nestp=0.0):
@@ -154,6 +167,7 @@ def generate(binary, plan, outdir, sd, nestp=0.0):
         pref = os.path.join(outdir, "%s%d" % (mode, k))
         rc, out = run([binary, "seq", "-mode", mode, "-n", str(n), "-calls", str(calls),
                        "-seed", str(sd * 1000 + k), "-vetop", str(vetop), "-nestp", str(nestp),
+                       "-backoffp", str(BACKOFFP.get(prop_of_plan(plan), 0.0)),
                        "-out", pref, "-shards", "16" if os.environ.get("VERIF_TIER", "quick") == "quick" else "64"],
                       timeout=1200 if os.environ.get("VERIF_TIER", "quick") == "quick" else 6000)
         if rc != 0:
